@@ -153,6 +153,70 @@ def gen_case(rng, nq):
     lines.append('END')
     return kind, lines
 
+def eberly_d2(p, v1, v2, v3, fixed):
+    """port of TriangleMesh::Impl::findNearestPointToFace as it is in /repo (fixed=False) and with the one-line Region 6 repair
+    `(d >= 0 ? 0 : -d/a)` instead of `(e >= 0 ? 0 : -d/a)` (fixed=True); used only to ATTRIBUTE a disagreement to that line"""
+    sub = lambda x, y: [x[i] - y[i] for i in range(3)]; dot = lambda x, y: sum(x[i] * y[i] for i in range(3))
+    e0 = sub(v2, v1); e1 = sub(v3, v1); dl = sub(v1, p)
+    a = dot(e0, e0); b = dot(e0, e1); c = dot(e1, e1); d = dot(e0, dl); e = dot(e1, dl); det = a * c - b * b
+    s = b * e - c * d; t = b * d - a * e
+    if s + t <= det:
+        if s < 0:
+            if t < 0:
+                if d < 0: s = 1 if -d >= a else -d / a; t = 0
+                else: s = 0; t = 0 if e >= 0 else (1 if -e >= c else -e / c)
+            else: s = 0; t = 0 if e >= 0 else (1 if -e >= c else -e / c)
+        elif t < 0: s = 0 if d >= 0 else (1 if -d >= a else -d / a); t = 0
+        else: s /= det; t /= det
+    else:
+        if s < 0:
+            t0 = b + d; t1 = c + e
+            if t1 > t0: num = t1 - t0; den = a - 2 * b + c; s = 1 if num >= den else num / den; t = 1 - s
+            else: s = 0; t = 1 if t1 <= 0 else (0 if e >= 0 else -e / c)
+        elif t < 0:
+            t0 = b + e; t1 = a + d
+            if t1 > t0: num = t1 - t0; den = a - 2 * b + c; t = 1 if num >= den else num / den; s = 1 - t
+            else: s = 1 if t1 <= 0 else (0 if (d if fixed else e) >= 0 else -d / a); t = 0
+        else:
+            num = c + e - b - d
+            if num <= 0: s = 0
+            else: den = a - 2 * b + c; s = 1 if num >= den else num / den
+            t = 1 - s
+    q = [v1[i] + s * e0[i] + t * e1[i] for i in range(3)]
+    return dot(sub(q, p), sub(q, p))
+
+def gen_triangles(rng, ntri, nq):
+    """the per-face routine findNearestPointToFace on single triangles (as two-sided closed meshes: faces (0,1,2) and (0,2,1)) of all
+    shapes - acute, right, obtuse at each vertex, needles, caps - in every vertex order, with queries in all seven Voronoi regions
+    (interior, beyond each edge, beyond each vertex), in and off the plane"""
+    cases = []
+    for _ in range(ntri):
+        shape = rng.choice(['acute', 'right', 'obtuse', 'obtuse', 'needle', 'cap', 'random'])
+        if shape == 'acute': P = [[0, 0], [1, 0], [rng.uniform(0.3, 0.7), rng.uniform(0.6, 1.2)]]
+        elif shape == 'right': P = [[0, 0], [rng.uniform(0.3, 2), 0], [0, rng.uniform(0.3, 2)]]
+        elif shape == 'obtuse': P = [[0, 0], [1, 0], [rng.uniform(-2, -0.2), rng.uniform(0.1, 1)]]
+        elif shape == 'needle': P = [[0, 0], [rng.uniform(2, 5), 0], [rng.uniform(0, 5), rng.uniform(0.02, 0.1)]]
+        elif shape == 'cap': P = [[0, 0], [2, 0], [rng.uniform(0.8, 1.2), rng.uniform(0.02, 0.1)]]
+        else: P = [[rng.uniform(-1, 1), rng.uniform(-1, 1)] for _ in range(3)]
+        area = abs((P[1][0] - P[0][0]) * (P[2][1] - P[0][1]) - (P[2][0] - P[0][0]) * (P[1][1] - P[0][1]))
+        if area < 1e-3: continue
+        order = rng.sample(range(3), 3); P = [P[i] for i in order]               # every vertex gets every position
+        R = rand_rot(rng); t = [rng.uniform(-1, 1) for _ in range(3)]; sc = rng.choice([0.3, 1.0, 3.0])
+        V = [[sum(R[i][j] * (sc * [p[0], p[1], 0.0][j]) for j in range(3)) + t[i] for i in range(3)] for p in P]
+        n = [R[i][2] for i in range(3)]
+        lines = ['MESH 3 2'] + ['v %.17g %.17g %.17g' % tuple(v) for v in V] + ['f 0 1 2', 'f 0 2 1']
+        for q in range(nq):
+            # barycentric weights with every sign pattern that occurs: (+,+,+) interior, one negative = beyond an edge,
+            # two negative = beyond a vertex
+            pat = [(1, 1, 1), (-1, 1, 1), (1, -1, 1), (1, 1, -1), (-1, -1, 1), (-1, 1, -1), (1, -1, -1)][q % 7]
+            w = [pat[k] * rng.uniform(0.05, 1.5) for k in range(3)]; s = sum(w)
+            if abs(s) < 0.1: w[0] += 1.0; s = sum(w)
+            w = [x / s for x in w]; h = rng.choice([0.0, rng.uniform(-1, 1), rng.uniform(-0.05, 0.05)])
+            p = [sum(w[k] * V[k][i] for k in range(3)) + h * n[i] for i in range(3)]
+            lines.append('NF %.17g %.17g %.17g' % tuple(p))
+        lines.append('END'); cases.append((shape, lines))
+    return cases
+
 PERMS = [[[1, 0, 0], [0, 1, 0], [0, 0, 1]], [[0, 0, 1], [1, 0, 0], [0, 1, 0]], [[0, 1, 0], [0, 0, 1], [1, 0, 0]],
          [[-1, 0, 0], [0, -1, 0], [0, 0, 1]], [[1, 0, 0], [0, -1, 0], [0, 0, -1]], [[0, 0, -1], [-1, 0, 0], [0, 1, 0]]]     # proper rotations with exact entries
 def gen_boxrays(rng, nbox, nray):
@@ -291,6 +355,39 @@ def run(ctx):
         ctx.report('impl:tree-query-differs-from-brute-force', 'a mesh query answered through the OBB tree differs from brute force over all faces: query [%s] impl=%s brute=%s' % (q, a, b),
                    {'failing_input': mesh + [q.split(' (')[0], 'END'], 'impl': a, 'brute_force': b})
     ctx.extra['disagreements'] = len(dis); ctx.extra['certificate_failures'] = len(cert)
+    # ---------------- the per-face routine findNearestPointToFace on single triangles of all shapes / vertex orders / Voronoi regions
+    tcases = gen_triangles(ctx.rng, 150 if not thorough else 1500, 28)
+    rct, oct_, ect = sh([exe], input='\n'.join('\n'.join(l) for _, l in tcases) + '\n', timeout=600)
+    rcm2, omt, emt = sh([os.path.join(exd, 'drv')], input=oct_, timeout=600)
+    it = [l.split()[1:] for l in oct_.split('\n') if l.startswith('NFACE')]; mt = [l.split()[1:] for l in omt.split('\n') if l.startswith('NFACE')]
+    tq = [(shape, [x for x in lines if x[0] in 'Mvf'], l) for shape, lines in tcases for l in lines if l.startswith('NF ')]
+    tdis = []
+    if not (len(it) == len(mt) == len(tq)): ctx.broken.append(('correspondence:C36:per-face', 'per-face outputs have different lengths: impl %d model %d queries %d' % (len(it), len(mt), len(tq))))
+    else:
+        for (shape, mesh, q), x, m in zip(tq, it, mt):
+            if len(x) != len(m) or any(not close_enough(float(a), float(b)) for a, b in zip(x, m)): tdis.append((shape, mesh, q, ' '.join(x), ' '.join(m)))
+    ctx.add_cases(len(tq), len(tq))
+    ctx.extra['per_face_nearest_point'] = {'triangles': len(tcases), 'queries': len(tq), 'disagreements': len(tdis)}
+    # known finding: Region 6, branch temp1 <= temp0, tests `e >= 0` where the edge parameter depends on d: a disagreement is attributed
+    # to that line iff the port of the current routine reproduces the implementation's value AND the port with `d >= 0` gives the
+    # exact distance, for every face of the case
+    known6 = []; rest = []
+    for rec in tdis:
+        shape, mesh, q, x, m = rec; x = x.split(); m = m.split()
+        V = [[float(t) for t in l.split()[1:]] for l in mesh if l.startswith('v ')]; F = [[int(t) for t in l.split()[1:]] for l in mesh if l.startswith('f ')]
+        P = [float(t) for t in q.split()[1:]]
+        okk = len(x) == len(F) and all(close_enough(eberly_d2(P, V[f[0]], V[f[1]], V[f[2]], False), float(xi)) and close_enough(eberly_d2(P, V[f[0]], V[f[1]], V[f[2]], True), float(mi))
+                                       for f, xi, mi in zip(F, x, m))
+        (known6 if okk else rest).append(rec)
+    ctx.extra['per_face_nearest_point']['region6_e_for_d_hits'] = len(known6)
+    for shape, mesh, q, x, m in known6[:1]:
+        ctx.report('impl:nearest-point-to-face-region6-tests-e-for-d', 'findNearestPointToFace Region 6 (branch temp1 <= temp0) tests e >= 0 instead of d >= 0 (%s triangle) query [%s]: squared distances per face impl=%s exact=%s' % (shape, q, x, m),
+                   {'failing_input': mesh + [q, 'END'], 'impl': x, 'model': m})
+    tdis = rest; ctx.extra['per_face_nearest_point']['disagreements'] = len(tdis)
+    for shape, mesh, q, x, m in tdis[:1]:
+        ctx.broken.append(('correspondence:C36:per-face', 'findNearestPointToFace differs from the exact closest point on the triangle (%s triangle) query [%s]: impl d2 per face=%s model=%s' % (shape, q, x, m)))
+        ctx.report('impl:nearest-point-to-face-wrong', 'TriangleMesh::findNearestPointToFace differs from the exact closest point on the triangle (%s triangle, faces (0 1 2) and (0 2 1)) query [%s]: squared distances impl=%s model=%s' % (shape, q, x, m),
+                   {'failing_input': mesh + [q, 'END'], 'replay_cmd': 'printf "%s\\n" | %s' % ('\\n'.join(mesh + [q, 'END']), exe), 'impl': x, 'model': m})
     # ---------------- OrientedBoundingBox::intersectsRay alone vs the extracted slab test (C36_boxray_Model.v)
     blines, bkinds = gen_boxrays(ctx.rng, 60 if not thorough else 600, 40)
     rcb, ocb, ecb = sh([exe], input='\n'.join(blines) + '\n', timeout=600)
